@@ -55,9 +55,14 @@ def case(args):
             f.write(b"\n".join(p["written"] for p in paths) + b"\n")
         sb.write("src/main.c", "main v0\n")
         ap = lambda rel: os.path.join(sb.path, rel)
-        args_ = [bs, "R", "--salt", "s", "--log", ap("ran.log"), "--in", ap("src/main.c"), "--out", ap("out/r.o"), "--reads-file", ap("R.reads"),
-                 "--dep-out", ap("R.d"), "--dep-style", "depinfo" if style == "dependency-info" else "makefile", "--fail-file", ap("R.fail")]
-        cmd = {"tool": "shell", "inputs": ["src/main.c"], "outputs": [ap("out/r.o")], "args": list(args_), "deps": ap("R.d"), "deps-style": style, "description": "RUN R"}
+        # one to three dependency files; the helper reports read i in file i % ndeps
+        ndeps = 1 if (index // 6) % 2 == 0 else rnd.randint(2, 3)
+        depfiles = [ap("R.d")] + [ap("R%d.d" % i) for i in range(1, ndeps)]
+        args_ = [bs, "R", "--salt", "s", "--log", ap("ran.log"), "--in", ap("src/main.c"), "--out", ap("out/r.o"), "--reads-file", ap("R.reads")]
+        for dfile in depfiles:
+            args_ += ["--dep-out", dfile]
+        args_ += ["--dep-style", "depinfo" if style == "dependency-info" else "makefile", "--fail-file", ap("R.fail")]
+        cmd = {"tool": "shell", "inputs": ["src/main.c"], "outputs": [ap("out/r.o")], "args": list(args_), "deps": depfiles[0] if ndeps == 1 else list(depfiles), "deps-style": style, "description": "RUN R"}
         if use_wd:
             cmd["working-directory"] = wd
         desc = {"client": {"name": "basic"}, "targets": {"": ["<all>"]}, "default": "",
@@ -66,7 +71,7 @@ def case(args):
             with open(sb.p("build.llbuild"), "w") as f:
                 json.dump(desc, f, indent=1)
         write_desc()
-        cfg = "style=%s working-directory=%s paths=%s" % (style, "set" if use_wd else "unset", [(p["written"].decode("latin-1").replace(sb.path, "$A"), "exists" if p["exists"] else "missing") for p in paths])
+        cfg = "style=%s dependency-files=%d working-directory=%s paths=%s" % (style, ndeps, "set" if use_wd else "unset", [(p["written"].decode("latin-1").replace(sb.path, "$A"), "exists" if p["exists"] else "missing") for p in paths])
         log.append(cfg)
 
         def build(expect_run, why, klass):
@@ -99,7 +104,8 @@ def case(args):
         for p in order:
             res["paths"] += 1
             special = sorted(set(ch for ch in " #$\\:%'\"" if ch.encode() in os.path.basename(p["written"])))
-            klass = "%s, %s path%s%s" % (style, "relative" if p["relative"] else "absolute", ", working-directory set" if use_wd else "", (", name contains " + "".join(special)) if special else "")
+            klass = "%s, %s path%s%s%s" % (style, "relative" if p["relative"] else "absolute", ", working-directory set" if use_wd else "", (", name contains " + "".join(special)) if special else "",
+                                          (", file %d of %d dependency files" % (paths.index(p) % ndeps + 1, ndeps)) if ndeps > 1 else "")
             if p["exists"]:
                 # edit, then delete
                 with open(p["full"], "ab") as f:
@@ -126,21 +132,41 @@ def case(args):
                 if build(False, "null build", klass) is None:
                     return res
         # malformed dependency file: the command must fail, and be retried
-        if index % 4 == 0:
+        if ndeps > 1 or rnd.random() < 0.35:
             res["malformed"] += 1
-            desc["commands"]["R"]["args"] = list(args_) + ["--dep-corrupt"]
+            which = rnd.randrange(ndeps)          # with several files only one of them (often not the last) is malformed
+            mid = rnd.random() < 0.5              # malformed after a well-formed prefix, or from the first byte
+            how = "%s, file %d of %d malformed %s" % (style, which + 1, ndeps, "after a well-formed prefix" if mid else "from the start")
+            desc["commands"]["R"]["args"] = list(args_) + ["--dep-corrupt", "--dep-corrupt-index", str(which)] + (["--dep-corrupt-mid"] if mid else [])
             write_desc()
             r = bslib.build(sb, "asan"); res["builds"] += 1
-            log.append("malformed dependency file -> rc=%d ran=%s" % (r.rc, "R" in r.ran))
-            wit = dict(seed=seed, index=index, history=list(log), output=r.text[-800:])
+            log.append("malformed dependency file (%s) -> rc=%d ran=%s" % (how, r.rc, "R" in r.ran))
+            wit = dict(seed=seed, index=index, history=list(log), output=r.text[-800:],
+                       depfiles={os.path.basename(d): open(d, "rb").read()[:300].decode("latin-1") for d in depfiles if os.path.exists(d)})
             if r.sanitizer:
                 res["viol"].append(("crash: " + r.sanitizer, wit)); return res
-            if "R" in r.ran and r.rc == 0:
-                res["viol"].append(("a malformed dependency file (%s) did not fail the command" % style, wit)); return res
+            if "R" not in r.ran:
+                res["inconclusive"].append("command with a changed definition did not run"); return res
+            if r.rc == 0:
+                res["viol"].append(("a malformed dependency file (%s%s) did not fail the command" % (style, ", one of several dependency files" if ndeps > 1 else ""), wit)); return res
+            res["classes"].add("malformed|" + ("several" if ndeps > 1 else "single") + "|" + style + "|" + ("mid" if mid else "start") + ("|last" if which == ndeps - 1 else "|not-last"))
             r2 = bslib.build(sb, "asan"); res["builds"] += 1
             log.append("rebuild -> rc=%d ran=%s" % (r2.rc, "R" in r2.ran))
             if "R" not in r2.ran:
                 res["viol"].append(("a command that failed on a malformed dependency file (%s) was not retried" % style, dict(wit, history=list(log)))); return res
+            # repaired dependency files: the command succeeds again and every reported path is honoured
+            desc["commands"]["R"]["args"] = list(args_)
+            write_desc()
+            if build(True, "dependency files well-formed again", style) is None:
+                return res
+            live = [p for p in paths if p["exists"]]
+            if live:
+                p = rnd.choice(live)
+                with open(p["full"], "ab") as f:
+                    f.write(b"edited after repair\n")
+                t = sb.tick(); os.utime(p["full"], ns=(t * 10**9, t * 10**9))
+                if build(True, "edit of discovered path %r after the malformed episode" % p["written"].decode("latin-1").replace(sb.path, "$A"), style) is None:
+                    return res
         if res["sample"] is None:
             res["sample"] = {"history": list(log)}
     finally:
@@ -184,10 +210,11 @@ def run(tier, replay):
         chk.cov.update(tot)
         chk.cov["parsers"] = parsers
         chk.cov["cases"] = len(results)
+        chk.cov["malformed_classes"] = sorted(c for c in classes if c.startswith("malformed"))
         chk.cov["rule"] = ("end to end: one shell command whose undeclared reads (2-4 paths over an alphabet with space # $ \\\\ : % quotes and bytes >= 0x80, absolute or relative to "
                            "working-directory, existing or missing) are reported through deps/deps-style {makefile, makefile-ignoring-subsequent-outputs, dependency-info} written by the helper with "
                            "the documented escaping; then each discovered path is edited / deleted / created in turn, each followed by a build (must re-run) and a null build (must not), "
-                           "each build a new process; a quarter of the cases end with a malformed dependency file (must fail the command and be retried); plus parser round trips "
+                           "each build a new process; half of the cases use 2-3 dependency files (read i reported in file i % n); a quarter of the single-file cases and all multi-file cases end with one malformed dependency file (any position; malformed from the start or after a well-formed prefix: must fail the command, be retried, and after the repair every path is honoured again); plus parser round trips "
                            "(checks/c11_parsers.py); distinct = (style, path class, event) classes judged")
         chk.assumptions = ["NUL, TAB, CR, LF in paths are outside what the Makefile format can express and are not generated"]
     finally:
